@@ -4,7 +4,7 @@
 //! was being executed (`current.txt`).
 
 use std::alloc::{GlobalAlloc, Layout, System};
-use std::sync::atomic::{AtomicBool, AtomicUsize, Ordering::SeqCst};
+use std::sync::atomic::{AtomicBool, AtomicIsize, AtomicUsize, Ordering::SeqCst};
 
 pub struct Counting;
 
@@ -13,11 +13,13 @@ static MAX_REQ: AtomicUsize = AtomicUsize::new(0);
 static LIVE: AtomicUsize = AtomicUsize::new(0);
 static PEAK: AtomicUsize = AtomicUsize::new(0);
 static TOTAL: AtomicUsize = AtomicUsize::new(0);
+static NET: AtomicIsize = AtomicIsize::new(0);
 pub const HARD_CAP: usize = 1 << 31;
 
 fn on_alloc(size: usize) {
 	if ARMED.load(SeqCst) {
 		MAX_REQ.fetch_max(size, SeqCst);
+		NET.fetch_add(size as isize, SeqCst);
 		TOTAL.fetch_add(size, SeqCst);
 		let live = LIVE.fetch_add(size, SeqCst) + size;
 		PEAK.fetch_max(live, SeqCst);
@@ -25,6 +27,7 @@ fn on_alloc(size: usize) {
 }
 fn on_free(size: usize) {
 	if ARMED.load(SeqCst) {
+		NET.fetch_sub(size as isize, SeqCst);
 		let _ = LIVE.fetch_update(SeqCst, SeqCst, |l| Some(l.saturating_sub(size)));
 	}
 }
@@ -68,4 +71,13 @@ pub fn measure<R>(f: impl FnOnce() -> R) -> (R, Measure) {
 	let r = f();
 	ARMED.store(false, SeqCst);
 	(r, Measure { max_request: MAX_REQ.load(SeqCst), peak_live: PEAK.load(SeqCst), total: TOTAL.load(SeqCst) })
+}
+
+/// Bytes allocated minus bytes freed while `f` ran (C10: anything `f` allocated and did not free).
+pub fn net_allocated<R>(f: impl FnOnce() -> R) -> (R, isize) {
+	NET.store(0, SeqCst);
+	ARMED.store(true, SeqCst);
+	let r = f();
+	ARMED.store(false, SeqCst);
+	(r, NET.load(SeqCst))
 }
